@@ -214,6 +214,20 @@ where
     G1A<N>: PartialEq + std::fmt::Debug,
     G2A<N>: PartialEq + std::fmt::Debug,
 {
+    // a panic anywhere in the entry points on valid points is itself a failure of the property
+    let res = mzkh::catch(std::panic::AssertUnwindSafe(|| run_list_inner::<N>(&mut *ctx, &mut *rng, r, pairs, mode)));
+    if let Err(msg) = res {
+        ctx.oracle_fail(&format!("{}:panic:pairing-entry-point", N::TAG), "a pairing entry point panicked on a list of valid points",
+            json!({"engine": N::TAG, "pairs (x:y, points xG1,yG2)": pairs_str(pairs), "mode": mode, "panic": msg}));
+    }
+}
+
+fn run_list_inner<N: Eng>(ctx: &mut Ctx, rng: &mut ChaCha8Rng, r: &BigUint, pairs: &[(BigUint, BigUint)], mode: &str)
+where
+    GtOf<N>: std::iter::Sum<GtOf<N>> + PartialEq + std::fmt::Debug,
+    G1A<N>: PartialEq + std::fmt::Debug,
+    G2A<N>: PartialEq + std::fmt::Debug,
+{
     let tag = N::TAG;
     let n = pairs.len();
     let ps: Vec<G1A<N>> = pairs.iter().map(|(x, _)| g1_point::<N>(rng, r, x, 0)).collect();
@@ -312,6 +326,17 @@ where
 
 /// `e(aP, bQ) = e(P, Q)^(ab)` and non-degeneracy on one sample.
 fn run_bilinear<N: Eng>(ctx: &mut Ctx, rng: &mut ChaCha8Rng, r: &BigUint, a: &BigUint, b: &BigUint, x: &BigUint, y: &BigUint, cls: &str)
+where
+    GtOf<N>: PartialEq + std::fmt::Debug,
+{
+    let res = mzkh::catch(std::panic::AssertUnwindSafe(|| run_bilinear_inner::<N>(&mut *ctx, &mut *rng, r, a, b, x, y, cls)));
+    if let Err(msg) = res {
+        ctx.oracle_fail(&format!("{}:panic:pairing", N::TAG), "pairing panicked on valid points",
+            json!({"engine": N::TAG, "a": mzkh::big_hex(a), "b": mzkh::big_hex(b), "x": mzkh::big_hex(x), "y": mzkh::big_hex(y), "panic": msg}));
+    }
+}
+
+fn run_bilinear_inner<N: Eng>(ctx: &mut Ctx, rng: &mut ChaCha8Rng, r: &BigUint, a: &BigUint, b: &BigUint, x: &BigUint, y: &BigUint, cls: &str)
 where
     GtOf<N>: PartialEq + std::fmt::Debug,
 {
